@@ -174,7 +174,7 @@ def run(case):
 
 def legs(tier):
     ml = 8 if tier == 'quick' else 12
-    a = Leg('laws', _case(ml), run, 3000, 120000, max_shrink_buckets=6)
+    a = Leg('laws', _case(ml), run, 12000, 120000, max_shrink_buckets=6)
     return [a]
 
 
